@@ -4,6 +4,7 @@ import (
 	"bytes"
 	"fmt"
 	"github.com/IBM/fluent-forward-go/fluent/protocol"
+	"io"
 
 	"github.com/tinylib/msgp/msgp"
 
@@ -83,8 +84,19 @@ func C13(c *core.Ctx) {
 			c.Violation("judge-go", "c13-concat", "bytes left after decoding a concatenation (slice)", map[string]string{"bytes": hx(cat)})
 		}
 		// stream path: one reader, successive DecodeMsg calls
+		// (every other round the stream hands over one message per Read, as a socket does; the decoded messages are
+		// kept and looked at again after the LAST one was read: what a decoder returned does not live in the reader)
 		br := bytes.NewReader(cat)
-		rd := msgp.NewReader(onlyReader{br})
+		var src io.Reader = onlyReader{br}
+		pieces := &pieceReader{}
+		if i%2 == 1 {
+			for _, e := range encs {
+				pieces.pieces = append(pieces.pieces, append([]byte{}, e...))
+			}
+			src = pieces
+		}
+		rd := msgp.NewReader(src)
+		var keptMsgs []codecMsg
 		for j, m := range msgs {
 			recv := newReceiver(m.Mode)
 			var err error
@@ -95,8 +107,15 @@ func C13(c *core.Ctx) {
 			if got := gen.MsgFromGo(recv).Render(true); got != m.Norm().Render(true) {
 				c.Violation("judge-go", "c13-concat", fmt.Sprintf("message %d of a concatenation decoded to another value (stream)", j), map[string]string{"bytes": hx(cat), "got": got})
 			}
-			if j == len(msgs)-1 && rd.Buffered()+br.Len() != 0 {
+			keptMsgs = append(keptMsgs, recv)
+			if j == len(msgs)-1 && rd.Buffered()+br.Len()*(1-i%2)+pieces.left() != 0 {
 				c.Violation("judge-go", "c13-concat", "bytes left after decoding a concatenation (stream)", map[string]string{"bytes": hx(cat)})
+			}
+		}
+		for j, recv := range keptMsgs {
+			if got := gen.MsgFromGo(recv).Render(true); got != msgs[j].Norm().Render(true) {
+				c.Violation("judge-go", "c13-concat", fmt.Sprintf("message %d decoded from a stream changed after later messages were read from the same reader", j), map[string]string{"bytes": hx(cat), "now": trunc(got, 300)})
+				break
 			}
 		}
 		c.Eval()
@@ -112,6 +131,11 @@ func C13(c *core.Ctx) {
 			follow := []byte{0xa3, 'e', 'n', 'd'}
 			base := append(append([]byte{}, encs[j]...), follow...)
 			c13One(c, m.Mode, base, "valid+follow")
+			// another complete value in front of the message (a heartbeat nil, a stray integer, an empty container):
+			// the first value of the input is then that value, not a message
+			for _, v := range [][]byte{{0xc0}, {0x01}, {0xa1, 'x'}, {0x90}, {0x80}, {0xc0, 0xc0}} {
+				c13One(c, m.Mode, append(append([]byte{}, v...), base...), "value-before")
+			}
 			if m.Mode == "forward" {
 				// the arity of an ENTRY (not of the message): one element too many in the last entry
 				for _, extra := range [][]byte{{0xc0}, {0x80}, {0x81, 0xa5, 'c', 'h', 'u', 'n', 'k', 0xa1, 'X'}} {
@@ -193,4 +217,27 @@ func c13BigCounts(c *core.Ctx) []int {
 		return append(all, 1<<20+1)
 	}
 	return []int{1<<18 + 1}
+}
+
+// pieceReader hands over one prepared piece per Read call (a socket delivering one message at a time).
+type pieceReader struct{ pieces [][]byte }
+
+func (p *pieceReader) Read(b []byte) (int, error) {
+	for len(p.pieces) > 0 && len(p.pieces[0]) == 0 {
+		p.pieces = p.pieces[1:]
+	}
+	if len(p.pieces) == 0 {
+		return 0, io.EOF
+	}
+	n := copy(b, p.pieces[0])
+	p.pieces[0] = p.pieces[0][n:]
+	return n, nil
+}
+
+func (p *pieceReader) left() int {
+	n := 0
+	for _, x := range p.pieces {
+		n += len(x)
+	}
+	return n
 }
